@@ -8,6 +8,9 @@ type Session interface {
 	Release(m interface{}, write bool)
 	// Access records a read/write of a named shared table.
 	Access(name string, write bool)
+	// Observe records a read/write of a named location for the race detection without being a scheduling point.
+	// p identifies the object (kept alive and numbered in order of first appearance, so that names do not depend on addresses).
+	Observe(p interface{}, field string, write bool)
 }
 
 var session Session
@@ -31,4 +34,16 @@ func Access(name string, write bool) {
 	if AccessLog != nil {
 		AccessLog(name, write)
 	}
+}
+
+// Field is inserted before every statement that reads or writes a field of an object-package struct
+// which some statement of the repository assigns after construction. Inside a scheduler session the
+// access is recorded for the vector-clock race detection (it is not a scheduling point of its own);
+// outside a session it does nothing.
+func Field(p interface{}, field string, write bool) {
+	s := CurrentSession()
+	if s == nil {
+		return
+	}
+	s.Observe(p, field, write)
 }
